@@ -10,6 +10,11 @@ def judge(ctx, ev):
     for i, clauses in res.items():
         e = byid[i]
         for c in clauses:
+            if c.startswith("ALG."):
+                ctx.extra["alg_disagreements"] = ctx.extra.get("alg_disagreements", 0) + 1
+                if ctx.extra["alg_disagreements"] <= 3:
+                    ctx.extra.setdefault("alg_disagreement_examples", []).append(M.readable(e))
+                continue
             ctx.violation(c, "C01:" + G.signature(e, c), M.readable(e), case=M.readable(e))
     for e in ev:
         if e.get("crash"):
@@ -19,12 +24,18 @@ def judge(ctx, ev):
 def run(ctx):
     ctx.mc("MC_AdapterMatch", "MC_AdapterMatch.cfg" if ctx.quick else "MC_AdapterMatch_thorough.cfg",
            workers=12, timeout=3000)
-    ev = M.gen(ctx, ["C01"], 6000 if ctx.quick else 150000, 14000 if ctx.quick else 400000)
-    ev += G.targeted_events(ctx.rng, 5000 if ctx.quick else 150000, ["C01"])
+    ctx.mc("MC_AlignerAlg", "MC_AlignerAlg.cfg" if ctx.quick else "MC_AlignerAlg_thorough.cfg", workers=12, timeout=6000)
+    ev = M.gen(ctx, ["C01", "ALG"], 6000 if ctx.quick else 150000, 14000 if ctx.quick else 400000)
+    ev += G.targeted_events(ctx.rng, 5000 if ctx.quick else 150000, ["C01", "ALG"])
     for i, e in enumerate(ev):
         e["id"] = i
+        if ctx.quick and i % 3:          # the transcription is compared on a third of the events in the quick tier
+            e["want"] = ["C01"]
     judge(ctx, ev)
     M.stats(ctx, ev)
+    n_alg = sum(1 for e in ev if "ALG" in e["want"])
+    ctx.extra["alg_events_compared"] = n_alg
+    ctx.extra["model_conformance"] = round(1 - ctx.extra.get("alg_disagreements", 0) / max(1, n_alg), 5)
     ctx.assumptions += [
         "TLC/SANY/Json module trusted",
         "error rates are rationals in the specification; only (rate, length) combinations whose double arithmetic agrees with exact arithmetic are sampled (R3)",
